@@ -47,7 +47,7 @@ def gen_case(r):
             if k < 0.12 and isinstance(p["default"], int) and not isinstance(p["default"], bool):
                 p["default"] = -abs(p["default"]) - 1
             elif k < 0.2 and isinstance(p["default"], float):
-                p["default"] = -abs(p["default"])
+                p["default"] = r.choice([-abs(p["default"]), 1e+20, 2.5e+16, 1e-10, 123456789.125])  # negative; repr with exponent (e+20, e-10); many digits
             elif k < 0.26:
                 p["typ"] = r.choice(["Union[int, str]", "List[str]", "Optional[Union[float, str]]"])
                 p["default"] = r.choice(["-7", "0.5", "10", "True", "hello"])
